@@ -293,7 +293,8 @@ class HidSim:
         if self.gw.fd is None or self.gw.fd not in self.loop.fd_readers:
             return False           # nobody listening: report lost
         self.gw.readbuf.append(rep)
-        self.delivered.append((self.loop.time(), rep))
+        # logged with the time the report became readable (= now, unless the loop was kept busy and reads it late)
+        self.delivered.append((min(due, self.loop.time()), rep))
         self.loop.fire_reader(self.gw.fd)
         return True
 
